@@ -5,7 +5,7 @@
 #   tools/seeded.sh <seeded-dir-with-patch.diff> <tier> <prop> [<prop>...]
 # prints one line per property: CAUGHT / MISSED / ERROR, keeps logs under sim/work/seeded/<name>/
 set -u
-ROOT="$(cd "$(dirname "${BASH_SOURCE[0]}")/.." && pwd)"
+ROOT="${SEEDED_TOOLS_ROOT:-$(cd "$(dirname "${BASH_SOURCE[0]}")/.." && pwd)}"
 SD="$(cd "$1" && pwd)"; tier="$2"; shift 2
 name="$(basename "$SD")"
 WT="/tmp/seedwt-$name-$$"
